@@ -57,6 +57,11 @@ def main():
     if not args.what:
         ap.error("property id required")
     budget = args.budget if args.budget is not None else TIER_BUDGET[args.tier]
+    if args.budget is None and args.tier == "quick":
+        from harness.registry import get_spec
+        qb = get_spec(args.what).quick_budget
+        if qb:
+            budget = qb
     return runner.run_property(args.what, args.tier, args.seed, args.workers, budget,
                                max_runs=args.max_runs)
 
